@@ -29,9 +29,14 @@ def derivative_contract(env, factory, const=None, exempt=(), history=True, equal
         env.note("%s: every partial is delegated to the framework (method=cs/fd); obligations are cs-safety, frame and "
                  "independence of previous outputs only" % hB.fq)
 
+    timing = [0.0]
+
     def run_fresh():
+        import time as _time
+        t0 = _time.time()
         o = hB.compute(ins, havoc="O0" if all_approx else None)
         j = hB.partials(ins) if not all_approx else hB.csx.new_jac()
+        timing[0] = max(timing[0], _time.time() - t0)
         return o, j, list(hB.last_frame)
 
     generic = None
@@ -102,6 +107,7 @@ def derivative_contract(env, factory, const=None, exempt=(), history=True, equal
             env.holds("C01", "D-index rows/cols in range d%s/d%s" % (of, wrt), ok)
     if not history:
         return hB
+    t_eval = timing[0]
     ana = not all_approx
     ana_keys = [k for k in declared if not declared[k]['method']]
 
@@ -155,6 +161,13 @@ def derivative_contract(env, factory, const=None, exempt=(), history=True, equal
     # ---- history: the previous point differs from X in exactly one input (anything remembered under a key that
     # leaves that input out is stale at X)
     free = [k for k in hB.in_names if not (const and k in const)]
+    # cost guard (quick tier): the revisits cost about two evaluations per input; components whose single symbolic
+    # evaluation is already slow get them in the thorough tier only (stated in the evidence notes)
+    import os as _os
+    est = 2.0 * len(free) * t_eval
+    if len(free) > 1 and est > 60.0 and _os.environ.get("OASVERIF_TIER", "quick") != "thorough":
+        env.note("%s: one-input-changed histories skipped in the quick tier (estimated %.0f s); run in the thorough tier" % (hB.fq, est))
+        free = []
     if len(free) > 1:
         for kin in free:
             hK = env.comp("live1." + kin, factory, setup_model)
